@@ -134,6 +134,18 @@ def large_regime():
             "G" * 257, "GS" * 150, "Q" * 300, "G" * 256, "K" + "G" * 256, "KD" * 129, "R" * 260 + "D" * 3, "GSKE" * 70 + "G"]
 
 
+def very_long(rng, heavy=False):
+    """sequences beyond 1000 / 1028 / 1100 residues (and, heavy, beyond 10000) whose lengths are not round numbers: where block-wise,
+    FFT or vectorised fast paths and read-size limits start to matter; two ends of different character"""
+    out = []
+    for n in ((1029, 1150, 1500) if not heavy else (1029, 1150, 1437, 1500, 2100, 3300)):
+        head = "".join(rng.choice("KRKRGS") for _ in range(n // 3))
+        tail = "".join(rng.choice("EDGSQNAP") for _ in range(n - n // 3 - 40))
+        out.append(head + "H" * 5 + "GSTYC" * 7 + tail)
+    out.append("K" * 15 + "GS" * 560 + "E" * 15)
+    return out
+
+
 def two_charge_seqs(nmax, step=1):
     """exactly two charged residues at every length 2..nmax (ends), all three sign pairs"""
     for n in range(2, nmax + 1, step):
@@ -199,6 +211,24 @@ def file_cases(rng, n, own, maxlen=60):
             text = (">sp|TEST\n" if rng.random() < 0.5 else "") + "\n".join(s[i:i + w] for i in range(0, len(s), w)) + rng.choice(["", "\n", "*\n"])
             lines += ["parseq %s %s" % (hex6(text), q) for q in own]
         yield Case(lines, {"kind": "object-from-file"})
+    # one multi-line file beyond 8 KB
+    s = "".join(rng.choice("ACDEFGHIKLMNPQRSTVWY") for _ in range(9100))
+    text = ">big\n" + "\n".join(s[i:i + 60] for i in range(0, len(s), 60)) + "\n"
+    big = ["parseq %s %s" % (hex6(text), q) for q in own if q.split(" ")[0] not in ("kappa", "dmax", "dmaxperm", "omega", "scd")]
+    if big:
+        yield Case(big, {"kind": "object-from-big-file"})
+
+
+def repeated_call_cases(rng, n, own, extra_seqs=()):
+    """every own query asked three times in a row (and once more after the others) on one object: the answers must all be the model's"""
+    from .runner import Case
+    seqs = list(extra_seqs) + [rand_seq(rng, rng.choice(["polyampholyte", "idp", "blocky"]), rng.randint(6, 40)) for _ in range(n)]
+    for s in seqs:
+        lines = ["new 0 " + s]
+        for q in own:
+            lines += ["o 0 " + q] * 3
+        lines += ["o 0 " + q for q in own]
+        yield Case(lines, {"kind": "repeated-calls", "judge_from": 1})
 
 
 def after_calls_cases(rng, n, own, minlen=8, maxlen=50):
